@@ -12,6 +12,7 @@ import LndModel.C07.Mailbox
 import LndModel.C07.Fault
 import LndModel.C07.Kinds
 import LndModel.C07.Restart
+import LndModel.C07.CodecDriver
 
 open LndModel LndModel.Lines LndModel.C07
 
@@ -1264,7 +1265,11 @@ def step (s : St) (line : String) : IO St := do
 end LndModel.C07.Driver
 
 open LndModel.C07.Driver in
-def main : IO Unit := do
+def main (args : List String) : IO Unit := do
+  if args.head? == some "codec" then
+    let s ← LndModel.Lines.foldStdin LndModel.C07.CodecDriver.step {}
+    LndModel.C07.CodecDriver.report s
+    return
   let s ← LndModel.Lines.foldStdin step {}
   IO.println s!"STAT lines={s.lines}"
   IO.println s!"STAT cases={s.cases}"
